@@ -534,23 +534,22 @@ theorem normalize_obmag_model (E : Env K) (hT : E.T.Lawful) (P : OverlapPar K) (
   simp only [effstim, hc, ok_bind']
   exact toMag_ofMag hT target
 
--- NOT PROVABLE ON CURRENT CODE (full statement): the same with `wavelengths` given — `effstim('vegamag')`
--- integrates Vega × band on that product's own sampling set whatever `wavelengths` is, `normalize` on
--- `wavelengths` (see the note before `normalize_jy_model_partial`).
-/-- **VEGAMAG target, end to end, implicit wavelengths**: the magnitude of the normalised spectrum
-relative to Vega is the target, for every real target and without any sign condition on the flux -/
-theorem normalize_vegamag_model_partial (E : Env K) (hT : E.T.Lawful) (P : OverlapPar K) (self band : Spec K) (target : K)
-    (force : Bool) (area area' : Option K) (vm : Synphot.Tree K)
+/-- **VEGAMAG target, end to end** (explicit or implicit wavelengths — since 673f123 `effstim('vegamag')`
+integrates Vega × band on the caller's wavelengths when given, as `normalize` does): the magnitude of the
+normalised spectrum relative to Vega is the target, for every real target and without any sign
+condition on the flux -/
+theorem normalize_vegamag_model (E : Env K) (hT : E.T.Lawful) (P : OverlapPar K) (self band : Spec K) (target : K)
+    (wl : Option (List K)) (force : Bool) (area area' : Option K) (vm : Synphot.Tree K)
     (k : K) (s' : Spec K) (wn : Bool) (atol rtol : K)
-    (h : normalizeFactor E P self band target .vegamag none force area (some vm) = .ok (k, s', wn))
+    (h : normalizeFactor E P self band target .vegamag wl force area (some vm) = .ok (k, s', wn))
     (sm bm : Synphot.Tree K) (hsm : s'.model = .ok sm) (hbm : band.model = .ok bm)
     (o : Obs K) (ho : o.model = .bin .mul (.scale sm k) bm) (hob : o.band = band) :
-    effstim E P.mergeThr atol rtol o .vegamag none area' (some vm) = .ok target := by
+    effstim E P.mergeThr atol rtol o .vegamag wl area' (some vm) = .ok target := by
   obtain ⟨sm', bm', total, std, h1, h2, h3, hpos, hs, hk⟩ :=
-    factor_formula E P self band target .vegamag none force area (some vm) k s' wn h
+    factor_formula E P self band target .vegamag wl force area (some vm) k s' wn h
   rw [hsm] at h1; injection h1 with h1; subst h1
   rw [hbm] at h2; injection h2 with h2; subst h2
-  rw [normalizeIntegrals_density E P sm bm .vegamag none area (some vm) (by intro h; cases h) (by intro h; cases h)] at h3
+  rw [normalizeIntegrals_density E P sm bm .vegamag wl area (some vm) (by intro h; cases h) (by intro h; cases h)] at h3
   obtain ⟨w, hw, h3⟩ := bind_ok h3
   obtain ⟨tot, htot, h3⟩ := bind_ok h3
   obtain ⟨st, hst, h3⟩ := bind_ok h3
@@ -567,9 +566,8 @@ theorem normalize_vegamag_model_partial (E : Env K) (hT : E.T.Lawful) (P : Overl
   have hm := ofMag_pos hT target
   have hkpos : 0 < k := by rw [hk']; positivity
   have hnum : k * tot = ofMag E.T target * sd := by rw [hk']; have := ne_of_gt hpos; field_simp
-  have hwu' : wavesetOrErr P.mergeThr (.bin .mul st bm) = .ok wu := hwu
   simp only [effstim, hob, hbm, ho, wavelengthsOr_scaled, hw, ok_bind', integrateTrapz_scaled E sm bm k hkpos.le w tot htot,
-    hwu', hsd, hnum, validateTotalflux_of_pos (mul_pos hm hspos), validateTotalflux_of_pos hspos, pure, Except.pure]
+    hwu, hsd, hnum, validateTotalflux_of_pos (mul_pos hm hspos), validateTotalflux_of_pos hspos, pure, Except.pure]
   congr 1
   rw [hT.log10_mul _ _ hm hspos]
   unfold ofMag
@@ -606,7 +604,7 @@ theorem density_setup (E : Env K) (hP : E.P.Pos) (P : OverlapPar K) (self band :
         | .flam => pure (num / den)
         | .stmag => toMag E.T (num / den / E.P.stZero)
         | u' => do
-            let wp ← pivot E P.mergeThr bm none
+            let wp ← pivot E P.mergeThr bm wl
             convertOne E.P E.T (plainSamp wp) .flam u' (num / den)) := by
   obtain ⟨sm', bm', total, std, h1, h2, h3, hpos, hs, hk⟩ :=
     factor_formula E P self band target u wl force area vega k s' wn h
@@ -720,14 +718,15 @@ theorem normalize_stmag_model (E : Env K) (hP : E.P.Pos) (hT : E.T.Lawful) (P : 
 
 /-- a positive pivot wavelength means both `∫P/λ` and `∫λP` are non-zero on the bandpass grid, and the
 pivot squares to their quotient -/
-theorem pivot_facts (E : Env K) (hT : E.T.Lawful) (thr : K) (bm : Synphot.Tree K) (xb yb : List K) (wp : K)
-    (hxb : wavelengthsOr thr bm none = .ok xb) (hyb : sampleTree E bm xb = .ok yb)
-    (hpiv : pivot E thr bm none = .ok wp) (hwp : 0 < wp) :
+theorem pivot_facts (E : Env K) (hT : E.T.Lawful) (thr : K) (bm : Synphot.Tree K) (wl : Option (List K))
+    (xb yb : List K) (wp : K)
+    (hxb : wavelengthsOr thr bm wl = .ok xb) (hyb : sampleTree E bm xb = .ok yb)
+    (hpiv : pivot E thr bm wl = .ok wp) (hwp : 0 < wp) :
     trapz ((xb.zip yb).map fun p => (p.1, p.2 / p.1)) ≠ 0 ∧
     trapz ((xb.zip yb).map fun p => (p.1, p.1 * p.2)) ≠ 0 ∧
     wp * wp = |trapz ((xb.zip yb).map fun p => (p.1, p.1 * p.2))| /
       |trapz ((xb.zip yb).map fun p => (p.1, p.2 / p.1))| := by
-  rw [pivot_value E thr bm xb yb hxb hyb] at hpiv
+  rw [pivot_value E thr bm wl xb yb hxb hyb] at hpiv
   injection hpiv with hpiv
   set A := trapz ((xb.zip yb).map fun p => (p.1, p.2 / p.1))
   set B := trapz ((xb.zip yb).map fun p => (p.1, p.1 * p.2))
@@ -741,26 +740,25 @@ theorem pivot_facts (E : Env K) (hT : E.T.Lawful) (thr : K) (bm : Synphot.Tree K
     exact absurd (mul_self_eq_zero.mp hsq) (ne_of_gt hwp)
   exact ⟨hA, hB, by rw [hsq, abs_div]⟩
 
-/-- **Jy / prefixed-Jy target, end to end** (implicit wavelengths — `effstim` takes the pivot on the
-bandpass's own grid whatever `wavelengths` is): for a positive target, non-negative source × band and
+/-- **Jy / prefixed-Jy target, end to end** (explicit or implicit wavelengths): for a positive target, non-negative source × band and
 throughput, and a bandpass with a positive pivot wavelength, `effstim` in the target's unit is the target -/
 theorem normalize_jy_of_pivot (E : Env K) (hP : E.P.Pos) (hT : E.T.Lawful) (P : OverlapPar K) (self band : Spec K)
     (s target : K) (hs : 0 < s) (ht : 0 < target)
-    (force : Bool) (area : Option K) (vega : Option (Synphot.Tree K))
+    (wl : Option (List K)) (force : Bool) (area : Option K) (vega : Option (Synphot.Tree K))
     (k : K) (s' : Spec K) (wn : Bool) (atol rtol : K)
-    (h : normalizeFactor E P self band target (.jy s) none force area vega = .ok (k, s', wn))
+    (h : normalizeFactor E P self band target (.jy s) wl force area vega = .ok (k, s', wn))
     (sm bm : Synphot.Tree K) (hsm : s'.model = .ok sm) (hbm : band.model = .ok bm)
     (hsrc : ∀ x v, 0 < x → (Synphot.Tree.bin .mul sm bm).eval E x = .ok v → 0 ≤ v)
     (hband : ∀ x v, 0 < x → bm.eval E x = .ok v → 0 ≤ v)
-    (wp : K) (hpiv : pivot E P.mergeThr bm none = .ok wp) (hwp : 0 < wp)
+    (wp : K) (hpiv : pivot E P.mergeThr bm wl = .ok wp) (hwp : 0 < wp)
     (o : Obs K) (ho : o.model = .bin .mul (.scale sm k) bm) (hob : o.band = band)
     (area' : Option K) (vega' : Option (Synphot.Tree K)) :
-    effstim E P.mergeThr atol rtol o (.jy s) none area' vega' = .ok target := by
+    effstim E P.mergeThr atol rtol o (.jy s) wl area' vega' = .ok target := by
   obtain ⟨w, yp, xb, yb, hxb, hyb, hvb, hynn, htot, _, hkv, heff⟩ :=
     density_setup E hP P self band target (.jy s) (by refine ⟨?_, ?_, ?_⟩ <;> intro h <;> cases h)
-      none force area vega k s' wn atol rtol h 1 (.jy s) rfl trivial hs zero_le_one sm bm hsm hbm hsrc hband o ho hob
+      wl force area vega k s' wn atol rtol h 1 (.jy s) rfl trivial hs zero_le_one sm bm hsm hbm hsrc hband o ho hob
       area' vega'
-  obtain ⟨hA, hB, hsq⟩ := pivot_facts E hT P.mergeThr bm xb yb wp hxb hyb hpiv hwp
+  obtain ⟨hA, hB, hsq⟩ := pivot_facts E hT P.mergeThr bm wl xb yb wp hxb hyb hpiv hwp
   have hh := hP.h; have hc := hP.c; have hj := hP.jy
   have hhc : 0 < E.P.h * E.P.c := mul_pos hh hc
   set tot := |trapz (w.zip yp)| with htotdef
@@ -789,24 +787,24 @@ theorem normalize_jy_of_pivot (E : Env K) (hP : E.P.Pos) (hT : E.T.Lawful) (P : 
   have := ne_of_gt hApos; have := ne_of_gt hs; have := ne_of_gt hj
   field_simp
 
-/-- **FNU target, end to end** (implicit wavelengths) -/
+/-- **FNU target, end to end** (explicit or implicit wavelengths), positive pivot assumed -/
 theorem normalize_fnu_of_pivot (E : Env K) (hP : E.P.Pos) (hT : E.T.Lawful) (P : OverlapPar K) (self band : Spec K)
     (target : K) (ht : 0 < target)
-    (force : Bool) (area : Option K) (vega : Option (Synphot.Tree K))
+    (wl : Option (List K)) (force : Bool) (area : Option K) (vega : Option (Synphot.Tree K))
     (k : K) (s' : Spec K) (wn : Bool) (atol rtol : K)
-    (h : normalizeFactor E P self band target .fnu none force area vega = .ok (k, s', wn))
+    (h : normalizeFactor E P self band target .fnu wl force area vega = .ok (k, s', wn))
     (sm bm : Synphot.Tree K) (hsm : s'.model = .ok sm) (hbm : band.model = .ok bm)
     (hsrc : ∀ x v, 0 < x → (Synphot.Tree.bin .mul sm bm).eval E x = .ok v → 0 ≤ v)
     (hband : ∀ x v, 0 < x → bm.eval E x = .ok v → 0 ≤ v)
-    (wp : K) (hpiv : pivot E P.mergeThr bm none = .ok wp) (hwp : 0 < wp)
+    (wp : K) (hpiv : pivot E P.mergeThr bm wl = .ok wp) (hwp : 0 < wp)
     (o : Obs K) (ho : o.model = .bin .mul (.scale sm k) bm) (hob : o.band = band)
     (area' : Option K) (vega' : Option (Synphot.Tree K)) :
-    effstim E P.mergeThr atol rtol o .fnu none area' vega' = .ok target := by
+    effstim E P.mergeThr atol rtol o .fnu wl area' vega' = .ok target := by
   obtain ⟨w, yp, xb, yb, hxb, hyb, hvb, hynn, htot, _, hkv, heff⟩ :=
     density_setup E hP P self band target .fnu (by refine ⟨?_, ?_, ?_⟩ <;> intro h <;> cases h)
-      none force area vega k s' wn atol rtol h 1 .fnu rfl trivial trivial zero_le_one sm bm hsm hbm hsrc hband o ho hob
+      wl force area vega k s' wn atol rtol h 1 .fnu rfl trivial trivial zero_le_one sm bm hsm hbm hsrc hband o ho hob
       area' vega'
-  obtain ⟨hA, hB, hsq⟩ := pivot_facts E hT P.mergeThr bm xb yb wp hxb hyb hpiv hwp
+  obtain ⟨hA, hB, hsq⟩ := pivot_facts E hT P.mergeThr bm wl xb yb wp hxb hyb hpiv hwp
   have hh := hP.h; have hc := hP.c
   have hhc : 0 < E.P.h * E.P.c := mul_pos hh hc
   set tot := |trapz (w.zip yp)| with htotdef
@@ -835,23 +833,23 @@ theorem normalize_fnu_of_pivot (E : Env K) (hP : E.P.Pos) (hT : E.T.Lawful) (P :
   have := ne_of_gt hApos
   field_simp
 
-/-- **ABmag target, end to end** (implicit wavelengths), for every real target -/
+/-- **ABmag target, end to end** (explicit or implicit wavelengths), for every real target, positive pivot assumed -/
 theorem normalize_abmag_of_pivot (E : Env K) (hP : E.P.Pos) (hT : E.T.Lawful) (P : OverlapPar K) (self band : Spec K)
-    (target : K) (force : Bool) (area : Option K) (vega : Option (Synphot.Tree K))
+    (target : K) (wl : Option (List K)) (force : Bool) (area : Option K) (vega : Option (Synphot.Tree K))
     (k : K) (s' : Spec K) (wn : Bool) (atol rtol : K)
-    (h : normalizeFactor E P self band target .abmag none force area vega = .ok (k, s', wn))
+    (h : normalizeFactor E P self band target .abmag wl force area vega = .ok (k, s', wn))
     (sm bm : Synphot.Tree K) (hsm : s'.model = .ok sm) (hbm : band.model = .ok bm)
     (hsrc : ∀ x v, 0 < x → (Synphot.Tree.bin .mul sm bm).eval E x = .ok v → 0 ≤ v)
     (hband : ∀ x v, 0 < x → bm.eval E x = .ok v → 0 ≤ v)
-    (wp : K) (hpiv : pivot E P.mergeThr bm none = .ok wp) (hwp : 0 < wp)
+    (wp : K) (hpiv : pivot E P.mergeThr bm wl = .ok wp) (hwp : 0 < wp)
     (o : Obs K) (ho : o.model = .bin .mul (.scale sm k) bm) (hob : o.band = band)
     (area' : Option K) (vega' : Option (Synphot.Tree K)) :
-    effstim E P.mergeThr atol rtol o .abmag none area' vega' = .ok target := by
+    effstim E P.mergeThr atol rtol o .abmag wl area' vega' = .ok target := by
   obtain ⟨w, yp, xb, yb, hxb, hyb, hvb, hynn, htot, hsdpos, hkv, heff⟩ :=
     density_setup E hP P self band target .abmag (by refine ⟨?_, ?_, ?_⟩ <;> intro h <;> cases h)
-      none force area vega k s' wn atol rtol h E.P.abZero .fnu rfl trivial trivial hP.ab.le sm bm hsm hbm hsrc hband o ho hob
+      wl force area vega k s' wn atol rtol h E.P.abZero .fnu rfl trivial trivial hP.ab.le sm bm hsm hbm hsrc hband o ho hob
       area' vega'
-  obtain ⟨hA, hB, hsq⟩ := pivot_facts E hT P.mergeThr bm xb yb wp hxb hyb hpiv hwp
+  obtain ⟨hA, hB, hsq⟩ := pivot_facts E hT P.mergeThr bm wl xb yb wp hxb hyb hpiv hwp
   have hh := hP.h; have hc := hP.c; have hz := hP.ab
   have hhc : 0 < E.P.h * E.P.c := mul_pos hh hc
   set tot := |trapz (w.zip yp)| with htotdef
@@ -883,38 +881,31 @@ theorem normalize_abmag_of_pivot (E : Env K) (hP : E.P.Pos) (hT : E.T.Lawful) (P
     field_simp
   rw [toMag_congr e, toMag_ofMag hT]
 
-/-! The three pivot-converted units without the pivot hypothesis: for a non-negative bandpass on its
-(validated, hence strictly monotone and positive) grid `∫P/λ ≠ 0` forces `∫λP ≠ 0`
+/-! The three pivot-converted units without the pivot hypothesis: for a non-negative bandpass on the
+(validated, hence strictly monotone and positive) grid of the call `∫P/λ ≠ 0` forces `∫λP ≠ 0`
 (`band_B_ne_zero`), so the pivot is positive as soon as the standard spectrum's band integral is.
+Explicit or implicit wavelengths: since 673f123 `Observation.effstim` converts its FLAM value at
+`self.bandpass.pivot(wavelengths=wavelengths)` — the pivot on the grid the integrals were taken on, which
+is the grid `normalize` integrated the standard spectrum × band on.  (Before that fix the statements
+failed for explicit wavelengths: 3 FNU requested on `[2000, 3000, 4000]` through a bandpass tabulated at
+2000 and 4000 Å was observed as 2.8333 FNU.) -/
 
--- NOT PROVABLE ON CURRENT CODE (full statement): the same three theorems, and the VEGAMAG one, with
--- `wavelengths` given (`wl = some w` in both `normalizeFactor` and `effstim`).  `normalize` integrates
--- the standard spectrum × band on `w`, but `Observation.effstim` converts its FLAM value at
--- `self.bandpass.pivot()` — the pivot on the bandpass's *own* sampling set — and, for VEGAMAG, integrates
--- Vega × band on that product's own sampling set (observation.py:478-481, 507-508), so the two calls use
--- different grids for the same integral.  Counterexample on the real code: a bandpass tabulated at
--- 2000 and 4000 Å (throughput 1), a flat source, `normalize(3 FNU, band, wavelengths=[2000, 3000, 4000])`
--- then `Observation(…).effstim(FNU, wavelengths=[2000, 3000, 4000])` returns 2.8333… FNU (ABmag target 20:
--- 20.062), whereas FLAM and STmag return the target exactly (`normalize_flam_model`,
--- `normalize_stmag_model` hold for explicit wavelengths).  What is missing is on the code's side
--- (`pivot(wavelengths=wavelengths)`), not in the proof. -/
-
-/-- **Jy / prefixed-Jy target, end to end, implicit wavelengths**: for non-negative source × band and
+/-- **Jy / prefixed-Jy target, end to end** (explicit or implicit wavelengths): for non-negative source × band and
 throughput and a positive returned factor, `effstim` in the target's unit is the target -/
-theorem normalize_jy_model_partial (E : Env K) (hP : E.P.Pos) (hT : E.T.Lawful) (P : OverlapPar K) (self band : Spec K)
+theorem normalize_jy_model (E : Env K) (hP : E.P.Pos) (hT : E.T.Lawful) (P : OverlapPar K) (self band : Spec K)
     (s target : K) (hs : 0 < s)
-    (force : Bool) (area : Option K) (vega : Option (Synphot.Tree K))
+    (wl : Option (List K)) (force : Bool) (area : Option K) (vega : Option (Synphot.Tree K))
     (k : K) (s' : Spec K) (wn : Bool) (atol rtol : K)
-    (h : normalizeFactor E P self band target (.jy s) none force area vega = .ok (k, s', wn)) (hk : 0 < k)
+    (h : normalizeFactor E P self band target (.jy s) wl force area vega = .ok (k, s', wn)) (hk : 0 < k)
     (sm bm : Synphot.Tree K) (hsm : s'.model = .ok sm) (hbm : band.model = .ok bm)
     (hsrc : ∀ x v, 0 < x → (Synphot.Tree.bin .mul sm bm).eval E x = .ok v → 0 ≤ v)
     (hband : ∀ x v, 0 < x → bm.eval E x = .ok v → 0 ≤ v)
     (o : Obs K) (ho : o.model = .bin .mul (.scale sm k) bm) (hob : o.band = band)
     (area' : Option K) (vega' : Option (Synphot.Tree K)) :
-    effstim E P.mergeThr atol rtol o (.jy s) none area' vega' = .ok target := by
+    effstim E P.mergeThr atol rtol o (.jy s) wl area' vega' = .ok target := by
   obtain ⟨w, yp, xb, yb, hxb, hyb, hvb, hynn, htot, _, hkv, _⟩ :=
     density_setup E hP P self band target (.jy s) (by refine ⟨?_, ?_, ?_⟩ <;> intro h <;> cases h)
-      none force area vega k s' wn atol rtol h 1 (.jy s) rfl trivial hs zero_le_one sm bm hsm hbm hsrc hband o ho hob
+      wl force area vega k s' wn atol rtol h 1 (.jy s) rfl trivial hs zero_le_one sm bm hsm hbm hsrc hband o ho hob
       area' vega'
   have hposb : ∀ p ∈ xb.zip yb, p.1 ≠ 0 := fun p hp =>
     ne_of_gt (((validate_ok_iff xb).mp hvb).1 p.1 (List.of_mem_zip hp).1)
@@ -931,24 +922,24 @@ theorem normalize_jy_model_partial (E : Env K) (hP : E.P.Pos) (hT : E.T.Lawful) 
     rw [hkv'] at hk
     by_contra hneg
     exact absurd hk (not_lt.mpr (mul_nonpos_of_nonpos_of_nonneg (not_lt.mp hneg) h1))
-  obtain ⟨wp, hpiv, hwp⟩ := pivot_pos_of_band E hT P.mergeThr bm xb yb hxb hvb hyb hynn hA
-  exact normalize_jy_of_pivot E hP hT P self band s target hs ht force area vega k s' wn atol rtol h sm bm hsm hbm
+  obtain ⟨wp, hpiv, hwp⟩ := pivot_pos_of_band E hT P.mergeThr bm wl xb yb hxb hvb hyb hynn hA
+  exact normalize_jy_of_pivot E hP hT P self band s target hs ht wl force area vega k s' wn atol rtol h sm bm hsm hbm
     hsrc hband wp hpiv hwp o ho hob area' vega'
 
-/-- **FNU target, end to end, implicit wavelengths** -/
-theorem normalize_fnu_model_partial (E : Env K) (hP : E.P.Pos) (hT : E.T.Lawful) (P : OverlapPar K) (self band : Spec K)
-    (target : K) (force : Bool) (area : Option K) (vega : Option (Synphot.Tree K))
+/-- **FNU target, end to end** (explicit or implicit wavelengths) -/
+theorem normalize_fnu_model (E : Env K) (hP : E.P.Pos) (hT : E.T.Lawful) (P : OverlapPar K) (self band : Spec K)
+    (target : K) (wl : Option (List K)) (force : Bool) (area : Option K) (vega : Option (Synphot.Tree K))
     (k : K) (s' : Spec K) (wn : Bool) (atol rtol : K)
-    (h : normalizeFactor E P self band target .fnu none force area vega = .ok (k, s', wn)) (hk : 0 < k)
+    (h : normalizeFactor E P self band target .fnu wl force area vega = .ok (k, s', wn)) (hk : 0 < k)
     (sm bm : Synphot.Tree K) (hsm : s'.model = .ok sm) (hbm : band.model = .ok bm)
     (hsrc : ∀ x v, 0 < x → (Synphot.Tree.bin .mul sm bm).eval E x = .ok v → 0 ≤ v)
     (hband : ∀ x v, 0 < x → bm.eval E x = .ok v → 0 ≤ v)
     (o : Obs K) (ho : o.model = .bin .mul (.scale sm k) bm) (hob : o.band = band)
     (area' : Option K) (vega' : Option (Synphot.Tree K)) :
-    effstim E P.mergeThr atol rtol o .fnu none area' vega' = .ok target := by
+    effstim E P.mergeThr atol rtol o .fnu wl area' vega' = .ok target := by
   obtain ⟨w, yp, xb, yb, hxb, hyb, hvb, hynn, htot, _, hkv, _⟩ :=
     density_setup E hP P self band target .fnu (by refine ⟨?_, ?_, ?_⟩ <;> intro h <;> cases h)
-      none force area vega k s' wn atol rtol h 1 .fnu rfl trivial trivial zero_le_one sm bm hsm hbm hsrc hband o ho hob
+      wl force area vega k s' wn atol rtol h 1 .fnu rfl trivial trivial zero_le_one sm bm hsm hbm hsrc hband o ho hob
       area' vega'
   have hposb : ∀ p ∈ xb.zip yb, p.1 ≠ 0 := fun p hp =>
     ne_of_gt (((validate_ok_iff xb).mp hvb).1 p.1 (List.of_mem_zip hp).1)
@@ -965,25 +956,25 @@ theorem normalize_fnu_model_partial (E : Env K) (hP : E.P.Pos) (hT : E.T.Lawful)
     rw [hkv'] at hk
     by_contra hneg
     exact absurd hk (not_lt.mpr (mul_nonpos_of_nonpos_of_nonneg (not_lt.mp hneg) h1))
-  obtain ⟨wp, hpiv, hwp⟩ := pivot_pos_of_band E hT P.mergeThr bm xb yb hxb hvb hyb hynn hA
-  exact normalize_fnu_of_pivot E hP hT P self band target ht force area vega k s' wn atol rtol h sm bm hsm hbm
+  obtain ⟨wp, hpiv, hwp⟩ := pivot_pos_of_band E hT P.mergeThr bm wl xb yb hxb hvb hyb hynn hA
+  exact normalize_fnu_of_pivot E hP hT P self band target ht wl force area vega k s' wn atol rtol h sm bm hsm hbm
     hsrc hband wp hpiv hwp o ho hob area' vega'
 
-/-- **ABmag target, end to end, implicit wavelengths**, for every real target; no hypothesis beyond
+/-- **ABmag target, end to end** (explicit or implicit wavelengths), for every real target; no hypothesis beyond
 non-negative source × band and throughput (the magnitude branch already refuses `std ≤ 0`) -/
-theorem normalize_abmag_model_partial (E : Env K) (hP : E.P.Pos) (hT : E.T.Lawful) (P : OverlapPar K) (self band : Spec K)
-    (target : K) (force : Bool) (area : Option K) (vega : Option (Synphot.Tree K))
+theorem normalize_abmag_model (E : Env K) (hP : E.P.Pos) (hT : E.T.Lawful) (P : OverlapPar K) (self band : Spec K)
+    (target : K) (wl : Option (List K)) (force : Bool) (area : Option K) (vega : Option (Synphot.Tree K))
     (k : K) (s' : Spec K) (wn : Bool) (atol rtol : K)
-    (h : normalizeFactor E P self band target .abmag none force area vega = .ok (k, s', wn))
+    (h : normalizeFactor E P self band target .abmag wl force area vega = .ok (k, s', wn))
     (sm bm : Synphot.Tree K) (hsm : s'.model = .ok sm) (hbm : band.model = .ok bm)
     (hsrc : ∀ x v, 0 < x → (Synphot.Tree.bin .mul sm bm).eval E x = .ok v → 0 ≤ v)
     (hband : ∀ x v, 0 < x → bm.eval E x = .ok v → 0 ≤ v)
     (o : Obs K) (ho : o.model = .bin .mul (.scale sm k) bm) (hob : o.band = band)
     (area' : Option K) (vega' : Option (Synphot.Tree K)) :
-    effstim E P.mergeThr atol rtol o .abmag none area' vega' = .ok target := by
+    effstim E P.mergeThr atol rtol o .abmag wl area' vega' = .ok target := by
   obtain ⟨w, yp, xb, yb, hxb, hyb, hvb, hynn, htot, hsdpos, hkv, _⟩ :=
     density_setup E hP P self band target .abmag (by refine ⟨?_, ?_, ?_⟩ <;> intro h <;> cases h)
-      none force area vega k s' wn atol rtol h E.P.abZero .fnu rfl trivial trivial hP.ab.le sm bm hsm hbm hsrc hband o ho hob
+      wl force area vega k s' wn atol rtol h E.P.abZero .fnu rfl trivial trivial hP.ab.le sm bm hsm hbm hsrc hband o ho hob
       area' vega'
   have hposb : ∀ p ∈ xb.zip yb, p.1 ≠ 0 := fun p hp =>
     ne_of_gt (((validate_ok_iff xb).mp hvb).1 p.1 (List.of_mem_zip hp).1)
@@ -993,8 +984,8 @@ theorem normalize_abmag_model_partial (E : Env K) (hP : E.P.Pos) (hT : E.T.Lawfu
     intro hA
     have : trapz (oLam (xb.zip yb)) = 0 := hA
     rw [this] at hsd; simp at hsd
-  obtain ⟨wp, hpiv, hwp⟩ := pivot_pos_of_band E hT P.mergeThr bm xb yb hxb hvb hyb hynn hA
-  exact normalize_abmag_of_pivot E hP hT P self band target force area vega k s' wn atol rtol h sm bm hsm hbm
+  obtain ⟨wp, hpiv, hwp⟩ := pivot_pos_of_band E hT P.mergeThr bm wl xb yb hxb hvb hyb hynn hA
+  exact normalize_abmag_of_pivot E hP hT P self band target wl force area vega k s' wn atol rtol h sm bm hsm hbm
     hsrc hband wp hpiv hwp o ho hob area' vega'
 
 /-- **photon-flux-density targets, end to end** (PHOTLAM, PHOTNU — and every linear density unit; explicit
@@ -1183,8 +1174,8 @@ private theorem w_pivot_pos : (0 : ℝ) < Real.sqrt |6 / (3 / 4)| := by
 
 /-- 3 mJy, 3 FNU, m ABmag (positive pivot `sqrt 8`) -/
 example (atol rtol : ℝ) : ∃ k, effstim wE par.mergeThr atol rtol (obs 2 k) (.jy (1 / 1000)) none none none = .ok 3 :=
-  ⟨_, normalize_jy_model_partial wE phys_pos Transc.real_lawful par (src 2) band (1 / 1000) 3 (by norm_num)
-    false none none _ (src 2) false atol rtol
+  ⟨_, normalize_jy_model wE phys_pos Transc.real_lawful par (src 2) band (1 / 1000) 3 (by norm_num)
+    none false none none _ (src 2) false atol rtol
     (w_call (.jy (1 / 1000)) (by intro h; cases h) (by intro h; cases h) 3 none none 1 (.jy (1 / 1000)) rfl trivial
       (by norm_num [flatPhotlam, phys]))
     (by apply factorValue_pos Transc.real_lawful <;> norm_num [flatPhotlam, phys])
@@ -1193,15 +1184,15 @@ example (atol rtol : ℝ) : ∃ k, effstim wE par.mergeThr atol rtol (obs 2 k) (
 
 example (atol rtol : ℝ) : ∃ k, effstim wE par.mergeThr atol rtol (obs 2 k) (.jy (1 / 1000)) none none none = .ok 3 :=
   ⟨_, normalize_jy_of_pivot wE phys_pos Transc.real_lawful par (src 2) band (1 / 1000) 3 (by norm_num) (by norm_num)
-    false none none _ (src 2) false atol rtol
+    none false none none _ (src 2) false atol rtol
     (w_call (.jy (1 / 1000)) (by intro h; cases h) (by intro h; cases h) 3 none none 1 (.jy (1 / 1000)) rfl trivial
       (by norm_num [flatPhotlam, phys]))
     (flatTree 2) bandTree (src_model 2) band_model (prod_nonneg wE 2 (by norm_num)) (band_nonneg wE)
     _ (pivot_val Transc.real _) w_pivot_pos (obs 2 _) rfl rfl none none⟩
 
 example (atol rtol : ℝ) : ∃ k, effstim wE par.mergeThr atol rtol (obs 2 k) .fnu none none none = .ok 3 :=
-  ⟨_, normalize_fnu_model_partial wE phys_pos Transc.real_lawful par (src 2) band 3
-    false none none _ (src 2) false atol rtol
+  ⟨_, normalize_fnu_model wE phys_pos Transc.real_lawful par (src 2) band 3
+    none false none none _ (src 2) false atol rtol
     (w_call .fnu (by intro h; cases h) (by intro h; cases h) 3 none none 1 .fnu rfl trivial
       (by norm_num [flatPhotlam, phys]))
     (by apply factorValue_pos Transc.real_lawful <;> norm_num [flatPhotlam, phys])
@@ -1210,15 +1201,15 @@ example (atol rtol : ℝ) : ∃ k, effstim wE par.mergeThr atol rtol (obs 2 k) .
 
 example (atol rtol : ℝ) : ∃ k, effstim wE par.mergeThr atol rtol (obs 2 k) .fnu none none none = .ok 3 :=
   ⟨_, normalize_fnu_of_pivot wE phys_pos Transc.real_lawful par (src 2) band 3 (by norm_num)
-    false none none _ (src 2) false atol rtol
+    none false none none _ (src 2) false atol rtol
     (w_call .fnu (by intro h; cases h) (by intro h; cases h) 3 none none 1 .fnu rfl trivial
       (by norm_num [flatPhotlam, phys]))
     (flatTree 2) bandTree (src_model 2) band_model (prod_nonneg wE 2 (by norm_num)) (band_nonneg wE)
     _ (pivot_val Transc.real _) w_pivot_pos (obs 2 _) rfl rfl none none⟩
 
 example (atol rtol m : ℝ) : ∃ k, effstim wE par.mergeThr atol rtol (obs 2 k) .abmag none none none = .ok m :=
-  ⟨_, normalize_abmag_model_partial wE phys_pos Transc.real_lawful par (src 2) band m
-    false none none _ (src 2) false atol rtol
+  ⟨_, normalize_abmag_model wE phys_pos Transc.real_lawful par (src 2) band m
+    none false none none _ (src 2) false atol rtol
     (w_call .abmag (by intro h; cases h) (by intro h; cases h) m none none 1 .fnu rfl trivial
       (by norm_num [flatPhotlam, phys]))
     (flatTree 2) bandTree (src_model 2) band_model (prod_nonneg wE 2 (by norm_num)) (band_nonneg wE)
@@ -1226,7 +1217,7 @@ example (atol rtol m : ℝ) : ∃ k, effstim wE par.mergeThr atol rtol (obs 2 k)
 
 example (atol rtol m : ℝ) : ∃ k, effstim wE par.mergeThr atol rtol (obs 2 k) .abmag none none none = .ok m :=
   ⟨_, normalize_abmag_of_pivot wE phys_pos Transc.real_lawful par (src 2) band m
-    false none none _ (src 2) false atol rtol
+    none false none none _ (src 2) false atol rtol
     (w_call .abmag (by intro h; cases h) (by intro h; cases h) m none none 1 .fnu rfl trivial
       (by norm_num [flatPhotlam, phys]))
     (flatTree 2) bandTree (src_model 2) band_model (prod_nonneg wE 2 (by norm_num)) (band_nonneg wE)
@@ -1247,7 +1238,7 @@ private theorem w_call_vega (m : ℝ) :
 
 example (atol rtol m : ℝ) :
     ∃ k, effstim wE par.mergeThr atol rtol (obs 2 k) .vegamag none none (some (flatTree 1)) = .ok m :=
-  ⟨_, normalize_vegamag_model_partial wE Transc.real_lawful par (src 2) band m false none none (flatTree 1) _ (src 2) false atol rtol
+  ⟨_, normalize_vegamag_model wE Transc.real_lawful par (src 2) band m none false none none (flatTree 1) _ (src 2) false atol rtol
     (w_call_vega m) (flatTree 2) bandTree (src_model 2) band_model (obs 2 _) rfl rfl⟩
 
 /-- count / OBMAG with area 1: count factors 2, 2, `total = 8` -/
@@ -1325,6 +1316,59 @@ example : ∃ k, normalizeFactor wE par (src 2) band 3 .fnu none false none none
     (admitOk wE 2 false) (src_model 2) band_model
     (integrals_density Transc.real 2 .fnu (by intro h; cases h) (by intro h; cases h) none none 1 .fnu rfl trivial)
     (by positivity) (fun h => by cases h)⟩
+
+/-! explicit wavelengths `[2, 3, 4]` (finer than the box's own sampling set `[2, 4]` — the grid on which
+the pre-673f123 code observed 2.8333 FNU for a 3 FNU target): the FNU, ABmag and VEGAMAG post-conditions -/
+
+private theorem w_call234 (u : FluxUnit ℝ) (hu : u ≠ .count) (hu' : u ≠ .obmag) (target : ℝ)
+    (a0 : ℝ) (u0 : FluxUnit ℝ)
+    (hstd : stdTreeOf wE u none = .ok (.leaf (.constFlux a0 u0))) (hu0 : IsLinearDensity u0)
+    (hq : 0 < |(|flatPhotlam phys u0 a0 2| + |flatPhotlam phys u0 a0 3|) / 2 +
+      (|flatPhotlam phys u0 a0 3| + |flatPhotlam phys u0 a0 4|) / 2|) :
+    normalizeFactor wE par (src 2) band target u (some [2, 3, 4]) false none none =
+      .ok (factorValue Transc.real u target |(|(2 : ℝ)| + |2|) / 2 + (|2| + |2|) / 2|
+        |(|flatPhotlam phys u0 a0 2| + |flatPhotlam phys u0 a0 3|) / 2 +
+          (|flatPhotlam phys u0 a0 3| + |flatPhotlam phys u0 a0 4|) / 2|, src 2, false) :=
+  normalizeFactor_of_pieces (admitOk234 wE 2 false) (src_model 2) band_model
+    (integrals_density234 Transc.real 2 u hu hu' none none a0 u0 hstd hu0) (by positivity)
+    (fun _ => div_pos (by positivity) hq)
+
+example (atol rtol : ℝ) :
+    ∃ k, effstim wE par.mergeThr atol rtol (obs 2 k) .fnu (some [2, 3, 4]) none none = .ok 3 :=
+  ⟨_, normalize_fnu_model wE phys_pos Transc.real_lawful par (src 2) band 3
+    (some [2, 3, 4]) false none none _ (src 2) false atol rtol
+    (w_call234 .fnu (by intro h; cases h) (by intro h; cases h) 3 1 .fnu rfl trivial
+      (by norm_num [flatPhotlam, phys]))
+    (by apply factorValue_pos Transc.real_lawful <;> norm_num [flatPhotlam, phys])
+    (flatTree 2) bandTree (src_model 2) band_model (prod_nonneg wE 2 (by norm_num)) (band_nonneg wE)
+    (obs 2 _) rfl rfl none none⟩
+
+example (atol rtol m : ℝ) :
+    ∃ k, effstim wE par.mergeThr atol rtol (obs 2 k) .abmag (some [2, 3, 4]) none none = .ok m :=
+  ⟨_, normalize_abmag_model wE phys_pos Transc.real_lawful par (src 2) band m
+    (some [2, 3, 4]) false none none _ (src 2) false atol rtol
+    (w_call234 .abmag (by intro h; cases h) (by intro h; cases h) m 1 .fnu rfl trivial
+      (by norm_num [flatPhotlam, phys]))
+    (flatTree 2) bandTree (src_model 2) band_model (prod_nonneg wE 2 (by norm_num)) (band_nonneg wE)
+    (obs 2 _) rfl rfl none none⟩
+
+example (atol rtol : ℝ) :
+    ∃ k, effstim wE par.mergeThr atol rtol (obs 2 k) (.jy (1 / 1000)) (some [2, 3, 4]) none none = .ok 3 :=
+  ⟨_, normalize_jy_model wE phys_pos Transc.real_lawful par (src 2) band (1 / 1000) 3 (by norm_num)
+    (some [2, 3, 4]) false none none _ (src 2) false atol rtol
+    (w_call234 (.jy (1 / 1000)) (by intro h; cases h) (by intro h; cases h) 3 1 (.jy (1 / 1000)) rfl trivial
+      (by norm_num [flatPhotlam, phys]))
+    (by apply factorValue_pos Transc.real_lawful <;> norm_num [flatPhotlam, phys])
+    (flatTree 2) bandTree (src_model 2) band_model (prod_nonneg wE 2 (by norm_num)) (band_nonneg wE)
+    (obs 2 _) rfl rfl none none⟩
+
+example (atol rtol m : ℝ) :
+    ∃ k, effstim wE par.mergeThr atol rtol (obs 2 k) .vegamag (some [2, 3, 4]) none (some (flatTree 1)) = .ok m :=
+  ⟨_, normalize_vegamag_model wE Transc.real_lawful par (src 2) band m (some [2, 3, 4]) false none none (flatTree 1) _
+    (src 2) false atol rtol
+    (normalizeFactor_of_pieces (admitOk234 wE 2 false) (src_model 2) band_model
+      (integrals_vega234 Transc.real 2 1 none) (by positivity) (fun _ => by positivity))
+    (flatTree 2) bandTree (src_model 2) band_model (obs 2 _) rfl rfl⟩
 
 end NonVacuity
 
